@@ -15,7 +15,7 @@ PLAN = {
         "R4: pub(super)/pub dropped (single-file crate)",
     ],
     "verus": [
-        {"template": "writer.verus.rs", "tier": "quick", "rlimit": 80, "min_functions": 36},
+        {"template": "writer.verus.rs", "tier": "quick", "rlimit": 250, "min_functions": 36},
     ],
     "witnesses": [
         {"match": r"(Payloads|payloads|verif_flush_cycle|verif_drain)", "src": "witness_flush_cycle.rs", "crate": "metrics-exporter-dogstatsd",
